@@ -63,7 +63,7 @@ def variant_names():
     return ["base", "flx_shape", "flx_values", "z", "u", "v", "Kx", "Ky", "Kz", "domain", "levels_scalar", "levels_list", "levels_reordered",
             "modes", "meas_pt", "bg", "analytic", "halo_none", "halo_resolved", "halo_zero", "halo_other", "halo_same_pads", "halo_other_py", "halo_other_px", "precision", "dispersion",
             "const_numeric", "const_analytic", "levels_long_a", "levels_long_b", "modes_over_x", "modes_clamped_x", "profiles_swapped",
-            "levels_digits_a", "levels_digits_b", "shape_digits_a", "shape_digits_b", "one_row_multi", "one_col_multi"]
+            "levels_digits_a", "levels_digits_b", "shape_digits_a", "shape_digits_b", "one_row_multi", "one_col_multi", "precision_multi"]
 
 
 def build(name):
@@ -152,6 +152,9 @@ def build(name):
         r["halo"] = 18.0
     elif name == "precision":
         r["precision"] = "single"
+    elif name == "precision_multi":    # single precision with several output levels
+        r["precision"] = "single"
+        r["levels"] = [6, 2, 4]
     elif name == "dispersion":
         r["footprint"] = False
         r["srf_flx"] = np.arange(120, dtype=float).reshape(10, 12)
